@@ -11,7 +11,9 @@ import (
 	"path/filepath"
 	"reflect"
 	"regexp"
+	"runtime"
 	"runtime/debug"
+	"runtime/pprof"
 	"sort"
 	"strings"
 	"sync"
@@ -23,14 +25,14 @@ import (
 )
 
 type HarnessCfg struct {
-	MaxPaths int   `json:"maxPaths"`
-	MaxPathsThorough int `json:"maxPathsThorough"`
-	MaxSecThorough   int `json:"maxSecThorough"`
-	MaxDec   int   `json:"maxDec"`
-	MaxSteps int64 `json:"maxSteps"`
-	MaxSec   int   `json:"maxSec"`
-	Replay   int   `json:"replay"`
-	Tier     string `json:"tier"` // "" both, "thorough" only in thorough
+	MaxPaths         int    `json:"maxPaths"`
+	MaxPathsThorough int    `json:"maxPathsThorough"`
+	MaxSecThorough   int    `json:"maxSecThorough"`
+	MaxDec           int    `json:"maxDec"`
+	MaxSteps         int64  `json:"maxSteps"`
+	MaxSec           int    `json:"maxSec"`
+	Replay           int    `json:"replay"`
+	Tier             string `json:"tier"` // "" both, "thorough" only in thorough
 	// ThoroughProps: when set, the harness explores its thorough space only under these properties;
 	// under the other properties that list it, the thorough tier runs the quick space (a harness
 	// shared by several properties would otherwise repeat hours of identical exploration)
@@ -53,6 +55,7 @@ var (
 	flagEvidence = flag.Bool("evidence", false, "write /verif/evidence/<prop>.json and print verdict lines")
 	flagSeed     = flag.Int("seed", 0, "VERIF_SEED (orders exploration only)")
 	flagLearn    = flag.String("learn", "", "write candidate known-finding regions (cells of concrete facts) to this file")
+	flagMemProf  = flag.String("memprofile", "", "write a heap profile to this file at exit (debug)")
 	flagCross    = flag.Bool("cross", false, "re-run harness verdict queries on z3-new and cvc5 (thorough)")
 )
 
@@ -100,6 +103,16 @@ type HarnessReport struct {
 func main() {
 	flag.Parse()
 	debug.SetGCPercent(400)
+	debug.SetMemoryLimit(20 << 30) // the collector works harder near 20 GiB instead of letting the heap reach 5x live
+	if *flagMemProf != "" {
+		defer func() {
+			if f, err := os.Create(*flagMemProf); err == nil {
+				runtime.GC()
+				pprof.WriteHeapProfile(f)
+				f.Close()
+			}
+		}()
+	}
 	t0 := time.Now()
 	re := regexp.MustCompile("^VerifH_" + *flagProp + "_")
 	if b, err := os.ReadFile(filepath.Join(*flagVerif, "harness", "props.json")); err == nil && *flagProp != "" {
